@@ -566,22 +566,8 @@ def _compile(ctx, model):
     # pickling
     gs = ce.members.get("__getstate__")
     ss = ce.members.get("__setstate__")
-    params = [a.arg for a in fn.args.args][1:]
-    ok = False
-    if gs is not None and ss is not None:
-        r = [x for x in ast.walk(gs.node) if isinstance(x, ast.Return)]
-        state = ast.unparse(r[0].value).replace(" ", "").strip("()") if r else ""
-        # which attribute holds which parameter
-        stored = {}
-        for a in ast.walk(fn):
-            if isinstance(a, ast.Assign) and len(a.targets) == 1 and \
-                    ast.unparse(a.targets[0]).startswith("self."):
-                for p_ in params:
-                    if p_ in {n.id for n in ast.walk(a.value)
-                              if isinstance(n, ast.Name)}:
-                        stored.setdefault(p_, ast.unparse(a.targets[0]))
-        want = ",".join(stored.get(p_, "?") for p_ in params)
-        ok = state == want and "self._compile(*state)" in ast.unparse(ss.node)
+    from ..rules import rebuild_state_agrees
+    ok, _state = rebuild_state_agrees(ce)
     ctx.ob("S/compile/pickle-state", ok, ce.loc(),
            "__getstate__ returns _compile's arguments in order, __setstate__ "
            "re-compiles" if ok else
